@@ -14,6 +14,7 @@ package main
 
 import (
 	"fmt"
+	"regexp"
 	"go/types"
 	"math/big"
 	"strings"
@@ -86,8 +87,25 @@ func (p *Ptr) withField(i int) *Ptr {
 
 // typeKey is the canonical name of a type used in heap-array names and type ids.
 func typeKey(t types.Type) string {
-	return types.TypeString(t, func(p *types.Package) string { return p.Path() })
+	s := types.TypeString(t, func(p *types.Package) string { return p.Path() })
+	if strings.Contains(s, "byte") || strings.Contains(s, "rune") || strings.Contains(s, "any") {
+		s = aliasRe.ReplaceAllStringFunc(s, func(w string) string {
+			switch w {
+			case "byte":
+				return "uint8"
+			case "rune":
+				return "int32"
+			case "any":
+				return "interface{}"
+			}
+			return w
+		})
+	}
+	return s
 }
+
+// predeclared aliases print under their alias name; heap arrays are keyed by the canonical type
+var aliasRe = regexp.MustCompile(`\b(byte|rune|any)\b`)
 
 func sanitize(s string) string {
 	var b strings.Builder
